@@ -139,10 +139,21 @@ def build(case_dec, which):
     if form in ("listfun", "selectfun", "indexer"):
         li = 0 if form != "selectfun" else 1
         x0 = _get_path(args[li], argnum)
+        dup_paths = case_dec.get("dup_paths")  # the same (traced) object in several slots of the list
+        alltraced = case_dec.get("alltraced") and form == "listfun"
+        if alltraced:
+            # every element of the list is differentiated: x is the tuple of them
+            x0 = tuple(args[li])
 
         def call(x):
             a = list(args)
-            a[li] = _set_path(a[li], argnum, x)
+            if alltraced:
+                a[li] = type(args[li])(x[k] for k in range(len(args[li])))
+            elif dup_paths:
+                for pth in dup_paths:
+                    a[li] = _set_path(a[li], pth, x)
+            else:
+                a[li] = _set_path(a[li], argnum, x)
             if form == "indexer":
                 return finish(getattr(mod, prim)[tuple(a[0])])
             return finish(getattr(mod, prim)(*a, **kwargs))
@@ -273,7 +284,7 @@ def signature(case_dec, mode):
         "kw": {k: classify(v) for k, v in case_dec["kwargs"].items()},
         "point": case_dec.get("point", "regular"),
     }
-    for k in ("bcast", "tags", "outsel", "dup", "domain", "layout", "outer", "joint"):
+    for k in ("bcast", "tags", "outsel", "dup", "domain", "layout", "outer", "joint", "dup_paths"):
         if case_dec.get(k) is not None:
             sig[k] = case_dec[k]
     return sig
